@@ -10,7 +10,7 @@ package main
 // notified by the read failure that follows, within the bound.
 //
 // Forced-schedule form (compared with the model): a subscription nobody reads is filled (one
-// event in the hands of its goroutine, blocked in `events <- payload`, 100 in its queue), then a
+// event in the hands of its goroutine, blocked in `events <- payload`, 100 frames in its queue), then a
 // frame of type Call for the same (service, object, action) arrives: the subscription's filter
 // matches whatever the type, the queue is full, the endpoint writes the Error reply.  That Write
 // arrives in the gated stream like any other: it is held, then released with success, or with an
@@ -50,7 +50,14 @@ func (r *c11Runner) bounded(f func()) bool {
 	}
 }
 
-// fill: subscription i, which nobody reads, receives 1 + 100 events.
+// fill: subscription i, which nobody reads from now on, ends up with its queue full and its
+// goroutine blocked in `events <- payload`.  Nothing of that goroutine is visible from outside, so
+// every step is made observable: the first event is read by the harness (a rendezvous: the goroutine
+// is back in its loop, the queue is empty); 100 events follow in one piece (the queue takes them
+// all, whether or not the goroutine has taken one in the meantime); then frames of type Call for
+// the subscription probe the queue: one that finds it full is answered by the endpoint (a Write
+// arrives in the stream), the first that is queued instead shows that the goroutine had taken an
+// event before it — and that probe makes the queue full again.  The labels follow what was seen.
 func (r *c11Runner) fill(i int) {
 	if r.faulted || !r.subReg[i] {
 		return
@@ -60,10 +67,19 @@ func (r *c11Runner) fill(i int) {
 	if r.obs.aborted != "" {
 		return
 	}
-	// the goroutine of Subscribe takes the event and blocks in `events <- payload`; nothing of it is
-	// visible from outside, hence the pause (it is runnable and has nothing else to wait for)
-	time.Sleep(2 * time.Millisecond)
-	r.lab("LSubTake %d", i)
+	select {
+	case _, ok := <-r.subEv[i]:
+		if !ok {
+			r.abort("sub %d: events closed during the fill", i)
+			return
+		}
+		r.obs.subRead[i]++
+		r.lab("LSubTake %d", i)
+		r.lab("LSubRead %d", i)
+	case <-time.After(r.hang):
+		r.abort("sub %d: no event to read", i)
+		return
+	}
 	one := c11Frame("sub", i, net.Event, 0)
 	if !r.waitIdle("before fill") {
 		return
@@ -73,6 +89,59 @@ func (r *c11Runner) fill(i int) {
 		return
 	}
 	r.lab("@fillsub %d %d", i, c11QueueCap)
+	term := c11MsgTerm("sub", i, net.Call)
+	for try := 0; ; try++ {
+		time.Sleep(time.Millisecond)
+		blocked, id, ok := r.serviceFrame(i)
+		if !ok {
+			return
+		}
+		if !blocked {
+			r.lab("LSubTake %d", i)
+			r.lab("LPeerMsg (%s)", term)
+			r.lab("LDispatch")
+			return
+		}
+		r.st.releaseWrite(id, net.Error, -1, nil)
+		if !r.waitIdle("after the reply to a probe") {
+			return
+		}
+		r.lab("LPeerMsg (%s)", term)
+		r.lab("LDispatch")
+		if try >= 100 {
+			r.abort("sub %d: its goroutine took nothing from a full queue within %d ms", i, try)
+			return
+		}
+	}
+}
+
+// serviceFrame feeds a frame of type Call which the filter of subscription i matches and reports
+// whether the endpoint answers it (blocked: the queue was full, the Write of the Error message for
+// id is now held in the stream, inside dispatch) or the reader is back in Read (it was queued).
+func (r *c11Runner) serviceFrame(i int) (blocked bool, id uint32, ok bool) {
+	r.svcSeq++
+	id = uint32(0x7001 + 2*r.svcSeq)
+	hdr := net.NewHeader(net.Call, c11SubService, 1, uint32(200+i), id)
+	var buf bytes.Buffer
+	msg := net.NewMessage(hdr, []byte{0x0c, byte(i)})
+	if err := msg.Write(&buf); err != nil {
+		panic(err)
+	}
+	if !r.waitIdle("before service call") {
+		return false, id, false
+	}
+	r.st.feed(buf.Bytes(), nil)
+	if !r.st.poll(r.hang, func() bool {
+		if r.st.pendingWrite(id, net.Error) != nil {
+			blocked = true
+			return true
+		}
+		return r.st.readerIdle()
+	}) {
+		r.abort("service call for subscription %d: neither queued nor answered", i)
+		return false, id, false
+	}
+	return blocked, id, true
 }
 
 // svcCall: a frame of type Call which the filter of subscription i matches.  If the queue has room
@@ -82,27 +151,9 @@ func (r *c11Runner) svcCall(pos, i int) {
 	if r.faulted {
 		return
 	}
-	id := uint32(0x7001 + 2*pos)
-	hdr := net.NewHeader(net.Call, c11SubService, 1, uint32(200+i), id)
-	var buf bytes.Buffer
-	msg := net.NewMessage(hdr, []byte{0x0c, byte(i)})
-	if err := msg.Write(&buf); err != nil {
-		panic(err)
-	}
 	term := c11MsgTerm("sub", i, net.Call)
-	if !r.waitIdle("before service call") {
-		return
-	}
-	r.st.feed(buf.Bytes(), nil)
-	blocked := false
-	if !r.st.poll(r.hang, func() bool {
-		if r.st.pendingWrite(id, net.Error) != nil {
-			blocked = true
-			return true
-		}
-		return r.st.readerIdle()
-	}) {
-		r.abort("service call for subscription %d: neither queued nor answered", i)
+	blocked, id, ok := r.serviceFrame(i)
+	if !ok {
 		return
 	}
 	if blocked && r.f.pos == pos && c11InDispatch(r.f.kind) {
